@@ -138,7 +138,121 @@ def run_case(c, rnd):
     return rec
 
 
+def client_histories(rnd, n):
+    """Histories on ONE proxy over a real transport: an exchange that goes wrong in some way, then a healthy exchange
+    whose reply reports a JSON-RPC error: that error must surface as ProtocolError / AppError with its code."""
+    from harness import netpeer
+    peer = netpeer.ScriptedPeer()
+    recs = []
+    faults = ["H", "HC", "CB", "RS", "E4L", "E5L", "E5N", "TR", "TRC", "E0", "NJ", "S202", "S203", "E5BIG"]
+    try:
+        for k in range(n):
+            fault = faults[k % len(faults)]
+            item = rnd.choice(["J601", "J42"])
+            ver = rnd.choice([1.0, 2.0])
+            p = jsonrpc.ServerProxy(peer.url(), version=ver)
+            with peer.lock:
+                peer.script[:] = [fault]
+            try:
+                p.echo("tok-%d" % k)
+            except BaseException:  # noqa
+                pass
+            with peer.lock:
+                peer.script[:] = [item]
+            second = outcome(lambda: p.echo("tok2-%d" % k))
+            recs.append({"fault": fault, "item": item, "want": "protocol" if item == "J601" else "app", "code": enc(-32601 if item == "J601" else 42),
+                         "second": second})
+            try:
+                p("close")()
+            except BaseException:  # noqa
+                pass
+    finally:
+        peer.down()
+    return recs
+
+
+def concurrent_proxies(rnd, n):
+    """Two INDEPENDENT proxies (own transport, own connection, own server) used by two threads at the same time: the reply
+    to A - an error, its 1024-byte body sent at once, the end of the stream held back - is being parsed while B makes a
+    complete successful call.  A's call must still raise A's error."""
+    import socket
+    import threading
+    recs = []
+    for k in range(n):
+        item = rnd.choice(["J601", "J42"])
+        err = {"code": -32601, "message": "Method not found"} if item == "J601" else {"code": 42, "message": "app", "data": [1]}
+        a_sent, b_done = threading.Event(), threading.Event()
+        lsA, lsB = socket.socket(), socket.socket()
+        for ls in (lsA, lsB):
+            ls.bind(("127.0.0.1", 0))
+            ls.listen(2)
+            ls.settimeout(5)
+
+        def read_req(c):
+            buf = b""
+            while b"\r\n\r\n" not in buf:
+                buf += c.recv(65536)
+            head, body = buf.split(b"\r\n\r\n", 1)
+            ln = [int(l.split(b":")[1]) for l in head.split(b"\r\n") if l.lower().startswith(b"content-length")][0]
+            while len(body) < ln:
+                body += c.recv(65536)
+            return json.loads(body.decode())
+
+        def serve_a():
+            try:
+                c, _ = lsA.accept()
+                c.settimeout(5)
+                rid = read_req(c)["id"]
+                d = {"jsonrpc": "2.0", "id": rid, "error": dict(err)}
+                pad = 1024 - len(json.dumps(d).encode())
+                d["error"]["message"] += "." * pad
+                c.sendall(b"HTTP/1.0 200 OK\r\nContent-Type: application/json\r\n\r\n" + json.dumps(d).encode())
+                a_sent.set()
+                b_done.wait(3)
+                c.close()
+            except OSError:
+                a_sent.set()
+
+        def serve_b():
+            try:
+                c, _ = lsB.accept()
+                c.settimeout(5)
+                rid = read_req(c)["id"]
+                out = json.dumps({"jsonrpc": "2.0", "id": rid, "result": "result-for-B"}).encode()
+                c.sendall(b"HTTP/1.0 200 OK\r\nContent-Type: application/json\r\nContent-Length: " + str(len(out)).encode() + b"\r\n\r\n" + out)
+                c.close()
+            except OSError:
+                pass
+        ta, tb = threading.Thread(target=serve_a, daemon=True), threading.Thread(target=serve_b, daemon=True)
+        ta.start()
+        tb.start()
+        res = {}
+        pa = jsonrpc.ServerProxy("http://127.0.0.1:%d/" % lsA.getsockname()[1])
+        pb = jsonrpc.ServerProxy("http://127.0.0.1:%d/" % lsB.getsockname()[1])
+        ca = threading.Thread(target=lambda: res.update(a=outcome(lambda: pa.echo("a"))), daemon=True)
+        ca.start()
+        a_sent.wait(3)
+        import time
+        time.sleep(0.08)                 # A's client has read and fed the body, and waits for the end of the stream
+        res["b"] = outcome(lambda: pb.echo("b"))
+        b_done.set()
+        ca.join(6)
+        for ls in (lsA, lsB):
+            ls.close()
+        recs.append({"fault": "concurrent-proxy", "item": item, "want": "protocol" if item == "J601" else "app", "code": enc(err["code"]),
+                     "second": res.get("a", {"kind": "no-outcome", "args": [], "val": enc(None), "data": enc(None)})})
+    return recs
+
+
 if __name__ == "__main__":
+    import socket as _socket
+    _socket.setdefaulttimeout(10)
+    if sys.argv[1] == "histories":
+        out, seed, n = sys.argv[2], int(sys.argv[3]), int(sys.argv[4])
+        rnd = random.Random(seed)
+        json.dump(client_histories(rnd, n) + concurrent_proxies(rnd, max(4, n // 14)), open(out, "w"))
+        print(n)
+        sys.exit(0)
     cases = json.load(open(sys.argv[1]))
     out, seed, k = sys.argv[2], int(sys.argv[3]), int(sys.argv[4])
     rnd = random.Random(seed)
